@@ -24,7 +24,7 @@ func runEndToEnd(r *gen.Rand, strict bool, nQueries int) {
 	var worlds []world
 	n := r.Range(2, 4)
 	for i := 0; i < n; i++ {
-		wd := genWorld(r, i == 0 || r.Chance(2, 3), fmt.Sprintf("s%d", i))
+		wd := genWorld(r, i == 0 || r.Chance(2, 3), fmt.Sprintf("s%d", i), false)
 		for j := range wd.Repos {
 			rp := &wd.Repos[j]
 			// on disk, tombstones go through the real index.SetTombstone, which addresses repositories by ID
